@@ -189,7 +189,21 @@ def replay(beh, workdir, seed, stats):
                 if op == 'deepcopy':
                     new = ro.deep_copy(ro.residues) if explicit else ro.deep_copy()
                 elif so['kind'] == 'mol' and (seed + step) % 3 == 0:
-                    new = Alignment(start=ro).start            # the copy an Alignment stores
+                    # the copy an Alignment stores: given at construction, or assigned (again) to a slot that is already
+                    # filled, in either slot
+                    form = (seed + step) % 4
+                    if form == 0:
+                        new = Alignment(start=ro).start
+                    elif form == 1:
+                        ali_ = Alignment(start=ro, end=ro)
+                        ali_.start = ro
+                        new = ali_.start
+                    elif form == 2:
+                        ali_ = Alignment(start=ro, end=ro)
+                        ali_.end = ro
+                        new = ali_.end
+                    else:
+                        new = Alignment(end=ro).end
                 else:
                     new = ro.copy(ro.residues) if explicit else ro.copy()
                 real.append(new)
